@@ -22,6 +22,7 @@ EXTENDS Integers, Sequences, FiniteSets, TLC
 
 CONSTANTS NodeIds, LinkIds, OrigIds, RampIds, DestIds,   \* RampIds \subseteq OrigIds: metered on-ramps
           NameOf,                                        \* [id -> STRING], duplicates allowed
+          InvalTable,            \* [op -> set of lookups] read from the implementation's decorators (<<>>: use the transcription below)
           InvalImplicitNodes,    \* TRUE: add_link(s)/add_origin/add_destination also drop nodes_by_name (repaired code)
           DestNameWrite,         \* TRUE: add_destination writes the new destination into the by-name lookup (pinned code)
           PathEndChecked         \* TRUE: add_path rejects a path whose last element is not a node (repaired code)
@@ -103,6 +104,7 @@ Stored(S, k) == Fill(S, k).cache[k].val
 
 \* the invalidation table, transcribed from the @invalidate_cache decorators
 Inval(op) ==
+  IF op \in DOMAIN InvalTable THEN InvalTable[op] \cap Lookups ELSE
   CASE op \in {"add_node", "add_nodes"} -> {"nodes_by_name"}
     [] op \in {"add_link", "add_links"} -> {"links_by_name", "nodes_by_link"} \cup (IF InvalImplicitNodes THEN {"nodes_by_name"} ELSE {})
     [] op = "add_origin" -> {"origins", "origins_by_node", "origins_by_name"} \cup (IF InvalImplicitNodes THEN {"nodes_by_name"} ELSE {})
